@@ -9,7 +9,10 @@
 //              oracle: model/reflex.hpp (independent MATH tokeniser + simultaneous whole-token renamer); result text must
 //              equal the model's byte for byte (=> every byte outside replaced tokens identical, replaced tokens exactly
 //              the accepted whole-identifier occurrences), returned count = number of replaced tokens; in managed
-//              (reference) text only the entity field of @{..} groups changes.
+//              (reference) text only the entity field of @{..} groups changes; resolved text = fresh resolution of the
+//              expected raw text; an exception escaping an entry point is a violation (<entry>:threw).
+//       text-san  the same exploration in the ASan+UBSan build at a smaller bound (every MathLexer construction allocates a
+//              256 KiB reflex buffer: ~90 us under ASan, 72 constructions per string, so the full bound runs in `fast`).
 #include "engine/mc.hpp"
 #include "model/reflex.hpp"
 
